@@ -143,12 +143,13 @@ func c03CompositionSpecs() []*edt.Spec {
 			// [2^k]P: k doublings, the first k−1 stay projective, the last returns to extended coordinates
 			Pkg: "curve", Func: "(*EdwardsPoint).mulByPow2", Opaque: op, SymLoops: true, MinPaths: 3,
 			// k−1 inner doublings: counted 0..k−2 or 1..k−1 (the start is checked against the bound below)
-			Vars: map[string]string{"($k == 0)": "kZero", "(φL0.0 < ($k - 1))": "more", "(φL0.0 < $k)": "more"},
+			// ... or counted down k..2 / k-1..1
+			Vars: map[string]string{"($k == 0)": "kZero", "(φL0.0 < ($k - 1))": "more", "(φL0.0 < $k)": "more", "(1 < φL0.0)": "more", "(0 < φL0.0)": "more"},
 			Classify: func(p *edt.Path, out string, e *edt.Env) string {
 				switch {
 				case p.Panic != nil:
 					return "panic"
-				case out == "next-iteration@L0((φL0.0 + 1))":
+				case out == "next-iteration@L0((φL0.0 + 1))" || out == "next-iteration@L0((φL0.0 - 1))":
 					return "double"
 				case out == "ptr($p)":
 					return "last"
@@ -180,6 +181,16 @@ func c03CompositionSpecs() []*edt.Spec {
 						bound0 = true
 					case "(φL0.0 < $k)":
 						bound1 = true
+					case "(1 < φL0.0)": // counted down from k while i > 1
+						start0, bound0 = has("loop L0: φL0.0 starts as $k"), true
+						if (class == "double") != (out == "next-iteration@L0((φL0.0 - 1))") {
+							bound0 = false
+						}
+					case "(0 < φL0.0)": // counted down from k-1 while i > 0
+						start0, bound0 = has("loop L0: φL0.0 starts as ($k - 1)"), true
+						if (class == "double") != (out == "next-iteration@L0((φL0.0 - 1))") {
+							bound0 = false
+						}
 					}
 				}
 				if !has("loop L0: A<curve.projectivePoint>#0 enters as projectivePoint.SetEdwards($t)") || !((start0 && bound0) || (start1 && bound1)) {
